@@ -3,7 +3,8 @@
 (* The init / configure / load / destroy protocol of a topology handle and *)
 (* the configuration relations (flags and type filters), as documented in  *)
 (* hwloc.h.  A slot is                                                     *)
-(*   [st |-> "none" | "init" | "loaded", flags, filters (sequence of 20)]  *)
+(*   [st |-> "none" | "init" | "loaded", flags, filters (sequence of 20),  *)
+(*    origin, pristine]                                                    *)
 (***************************************************************************)
 EXTENDS Topology
 
@@ -12,8 +13,9 @@ DefaultFilters ==
      IF (ty - 1) \in {L1I, L2I, L3I, MEMCACHE, MISC, BRIDGE, PCIDEV, OSDEV} THEN FILTER_KEEP_NONE
      ELSE IF ty - 1 = GROUP THEN FILTER_KEEP_STRUCTURE ELSE FILTER_KEEP_ALL]
 
-NoSlot   == [st |-> "none", flags |-> 0, filters |-> DefaultFilters]
-InitSlot == [st |-> "init", flags |-> 0, filters |-> DefaultFilters]
+\* origin: the XML document a topology was imported from (<<>> if none); pristine: not modified since
+NoSlot   == [st |-> "none", flags |-> 0, filters |-> DefaultFilters, origin |-> <<>>, pristine |-> TRUE]
+InitSlot == [st |-> "init", flags |-> 0, filters |-> DefaultFilters, origin |-> <<>>, pristine |-> TRUE]
 
 (* ---- flags ---- *)
 KnownFlagsMask == 1023                 \* the ten documented topology flags, bits 0..9
